@@ -38,9 +38,12 @@ CHECKS["C02"] = dict(
 
 CHECKS["C03"] = dict(
     title="HP/DHP dispose every retired object exactly once",
-    units=[dict(name="smr", src="harness/smr.cpp", args=["--property", "C03"])],
+    units=[dict(name="smr", src="harness/smr.cpp", args=["--property", "C03"]),
+           # the sequential histories again with libcds and the harness under AddressSanitizer: an overflow of a retired block is a violation C03:asan
+           dict(name="smr-asan", src="harness/smr.cpp", asan=True, args=["--property", "C03", "--filter", "/seq-"])],
     rule=SMR_RULE,
     explanation="HP and DHP programs (sequential histories incl. the DHP retired-array growth menu g in {0,1,63,64,192,193,200,255,256} of 256, "
+                "detach with guarded survivors followed by reuse of the thread record and of the trimmed block, "
                 "and concurrent retire/scan/detach/adopt programs); per-object disposer count must be exactly 1 by singleton destruction, 0 while "
                 "guarded at scan, and a pass with no guard on a retired object must free it",
     design_ref="DESIGN.md 9/C03, 7.3",
@@ -419,4 +422,21 @@ CHECKS["C20"] = dict(
                 "inserted item is disposed exactly once by the end, refused items never; clear() is part of the alphabet",
     design_ref="DESIGN.md 5, 9/C20",
     level_text="Exhaustive over all call sequences up to the stated depth on the real single-threaded API.",
+)
+
+CHECKS["C17"] = dict(
+    title="resize/rehash loses nothing for any hash functions",
+    units=[dict(name="rehash%d" % f, src="harness/rehash.cpp", cxxflags=["-DFAMILY=%d" % f]) for f in (1, 2, 3, 4)],
+    rule="seqmc over a configuration grid: for every configuration (container kind x locking policy x probe-set kind/size/threshold or resizing policy or bucket-table kind x initial capacity / load factor x hash-function tuple) "
+         "every sequence of up to d calls (quick 4, thorough 6) over {insert of 6-7 keys, erase of 2 keys}, each replayed on a fresh container; one engine 'execution' is one (configuration, first insert) subtree",
+    aux_names=["unused", "sequences_replayed", "operations_checked", "inserts_skipped_as_unplaceable"],
+    execs_aux=1,
+    explanation="CuckooSet (striping/refinable; list probe sets of size 1, 2, 4 and vector<2>, vector<4>; thresholds; store_hash on/off; initial size 4) with 12 hash-function pairs of which at least one is degenerate "
+                "(constant, one bit, pairs of keys colliding, low three bits zero, entropy only above bit 32, two all-bits values, key mod 4, identity, complement, a good hash); StripedSet over std::list/std::set/"
+                "std::vector with single_bucket_size_threshold<1|2>, load_factor_resizing<1|2>, rational_load_factor_resizing<1,2>, striping/refinable, capacities 1 and 4; SplitListSet (Michael/Lazy list, dynamic "
+                "and static bucket table) with item counts 2..16 and load factors 1..4; FeldmanHashSet with hash patterns sharing 0, 8, 32 and 56 low bits and head/array bits 4/2, 4/4, 8/3. After every call: the "
+                "call's result, membership and value of every key of the universe, size() and empty() against std::map. CuckooSet inserts that would make more than 2 x probe-set-size present keys share one hash "
+                "tuple are skipped and counted (the algorithm cannot place them); any other non-terminating loop exhausts a budget of 3e6 instrumented steps per sequence and is reported as 'no-progress'",
+    design_ref="DESIGN.md 5, 9/C17, 14.5",
+    level_text="Exhaustive over all call sequences up to the stated depth for every configuration of the grid, on the real containers.",
 )
